@@ -221,10 +221,14 @@ None."""
         if self._cachestore is not None:
             parser = self._cachestore.load(filename)
         if parser is None:
+            if self._cachestore is not None:
+                # Which state of the file is about to be read: the cache
+                # entry is valid for as long as the file has this mtime.
+                source_mtime_ns = os.stat(filename).st_mtime_ns
             parser = GIRParser(types_only=not self._passthrough_mode)
             parser.parse(filename)
             if self._cachestore is not None:
-                self._cachestore.store(filename, parser)
+                self._cachestore.store(filename, parser, source_mtime_ns)
 
         # 'includes' is a set: iterate it in a fixed order, the order of
         # self._parsed_includes decides which namespace resolves a C type
